@@ -330,6 +330,25 @@ class C11(Prop):
                     v.info['poisoned-call-raised'] = 1
             # the returned object must not alias caller data in a way a later call could disturb:
             # checked behaviourally by the repeat below
+            last_args, last_before = args, before
+        if results and len(text) % 3 != 0:
+            # ... nor may the object modify them later: what it does after the calls - parse() again, reset() of an
+            # online monitor - leaves the data it was given alone (it may have kept references to them)
+            try:
+                if obj['kind'] in ('dt_on', 'ct_on') and len(text) % 2:
+                    m.reset()
+                    what_later = 'reset()'
+                else:
+                    m.parse()
+                    what_later = 'a second parse()'
+                v.info['purity:later-' + what_later.split('(')[0].split()[-1]] = 1
+            except Exception:
+                what_later = None
+            if what_later and not monitors.same_plain(last_before, monitors.plain(last_args)):
+                v.bad('argument-mutated-later', '%s [%s]: %s after the calls changed the data the last call was given: '
+                      'before=%s after=%s' % (text, obj['kind'], what_later, repr(last_before)[:300],
+                                              repr(monitors.plain(last_args))[:300]))
+                return v
         if obj['kind'] in ('dt_off', 'ct_off') and len(results) >= 2:
             for i, r in enumerate(results[1:], 1):
                 if not monitors.same_plain(results[0], r):
